@@ -4,6 +4,7 @@ import (
 	"fmt"
 	"runtime"
 	"runtime/debug"
+	"strings"
 
 	"verifharness/core"
 	"verifharness/ref"
@@ -54,6 +55,14 @@ func (r *c15Runner) keep(k c15Kept) {
 		r.kept = append(r.kept[:oldest], r.kept[oldest+1:]...)
 	}
 	r.kept = append(r.kept, k)
+}
+
+// c15Probes are read after every caller-side modification of an earlier result.
+var c15Probes = [][]byte{
+	[]byte(`{"a":{},"b":[],"c":"","d":[{}],"e":{"x":[ ]},"f":{ }}`),
+	[]byte(`[{},[],"",{"k":{}},[[]],0,null,true]`),
+	[]byte(`{}`),
+	[]byte(`[]`),
 }
 
 type c15StepInfo struct {
@@ -114,7 +123,25 @@ func (r *c15Runner) step(step *core.Case) (info c15StepInfo, err error) {
 			}
 			scrambleTree(r.kept[idx].live)
 			r.kept[idx].mutated = true
-			return r.checkKept(fmt.Sprintf("after the caller modified the value returned at step %d", r.kept[idx].step))
+			if err := r.checkKept(fmt.Sprintf("after the caller modified the value returned at step %d", r.kept[idx].step)); err != nil {
+				return err
+			}
+			// nothing the caller did to that value may show in what any reader returns next
+			// (containers shared between results, e.g. one package-level empty map)
+			for _, doc := range c15Probes {
+				tree, _, _ := ref.Decode(doc)
+				for ri, vr := range []*rjson.ValueReader{new(rjson.ValueReader), &r.vr} {
+					got, _, err := vr.ReadValue(append([]byte(nil), doc...))
+					if err != nil || !ref.Equal(got, tree) {
+						return fmt.Errorf("after the caller modified the value returned at step %d, ReadValue(%s) on %s returns (%.200s, %v); want %.200s",
+							r.kept[idx].step, doc, []string{"a brand-new reader", "the reused reader"}[ri], fmt.Sprintf("%#v", got), err, fmt.Sprintf("%#v", tree))
+					}
+				}
+			}
+			return nil
+		}
+		if strings.HasPrefix(step.Kind, "bulk:") {
+			return r.bulk(step)
 		}
 		in := []byte(step.In)
 		work := append([]byte(nil), in...)
@@ -167,6 +194,65 @@ func (r *c15Runner) step(step *core.Case) (info c15StepInfo, err error) {
 		return nil
 	})
 	return info, perr
+}
+
+// c15BulkDoc builds the document of a bulk step: n members of one kind.
+func c15BulkDoc(n int, variant int64) []byte {
+	var member, open, cl string
+	switch variant % 4 {
+	case 0:
+		member, open, cl = "0", "[", "]"
+	case 1:
+		member, open, cl = `"a":0`, "{", "}" // one key repeated: n fields, one entry
+	case 2:
+		member, open, cl = `{"a":0}`, "[", "]"
+	default:
+		member, open, cl = `[]`, "[", "]"
+	}
+	b := make([]byte, 0, n*(len(member)+1)+2)
+	b = append(b, open...)
+	for i := 0; i < n; i++ {
+		if i > 0 {
+			b = append(b, ',')
+		}
+		b = append(b, member...)
+	}
+	return append(b, cl...)
+}
+
+// bulk: Kind "bulk:<ReadValue|ReadObject|ReadArray>", Ints = [members, repeats, variant]. The
+// same large document is read repeats times on the reused reader (nothing kept); every
+// result must match the brand-new reader's in error, offset and size, the last one in full.
+// Reaches totals of tens of millions of values per reader.
+func (r *c15Runner) bulk(step *core.Case) error {
+	if len(step.Ints) < 3 {
+		return fmt.Errorf("bad bulk step")
+	}
+	kind := strings.TrimPrefix(step.Kind, "bulk:")
+	doc := c15BulkDoc(int(step.Ints[0]), step.Ints[2])
+	var fresh rjson.ValueReader
+	want, wp, werr := c15Read(&fresh, kind, doc)
+	size := func(v interface{}) int {
+		switch x := v.(type) {
+		case []interface{}:
+			return len(x)
+		case map[string]interface{}:
+			return len(x)
+		}
+		return -1
+	}
+	for i := int64(0); i < step.Ints[1]; i++ {
+		got, gp, gerr := c15Read(&r.vr, kind, doc)
+		r.calls++
+		if (gerr == nil) != (werr == nil) || gp != wp || size(got) != size(want) {
+			return fmt.Errorf("%s of a %d-member document, repetition %d on the reused reader: (size %d, p=%d, err=%v); a brand-new reader: (size %d, p=%d, err=%v)",
+				kind, step.Ints[0], i, size(got), gp, gerr, size(want), wp, werr)
+		}
+		if i == step.Ints[1]-1 && werr == nil && !ref.Equal(got, want) {
+			return fmt.Errorf("%s of a %d-member document, repetition %d on the reused reader differs from a brand-new reader's result", kind, step.Ints[0], i)
+		}
+	}
+	return r.checkKept("after " + step.Kind)
 }
 
 // deterministicGC makes the garbage collector run only where a history says so: the
